@@ -11,7 +11,9 @@
 //! and the descriptions of built-in types/directives are not compared (no reference text available).
 //!
 //! Streams: `c24.typeref` (type reference ↦ kind/name chain), `c24.filter` (deprecation filtering),
-//! `c24.possible` (possibleTypes), `c24.skiproots` (concrete root fields are skipped).
+//! `c24.possible` (possibleTypes), `c24.skiproots` (concrete root fields are skipped), `c24.full` / `c24.fullfilter`
+//! (the whole response of the standard query / of the deprecation-filter query: the Lean model of every resolver, run
+//! through the executor model, against `partial_execute`; one digest per type and directive, in response order).
 use crate::p26::{inner_name, ty};
 use crate::p28::{toks, Lit, Ty, JV};
 use crate::util::*;
@@ -438,6 +440,106 @@ fn first_diff(a: &JV, b: &JV, path: &mut Vec<String>) -> Option<(String, String,
     }
 }
 
+
+// ───────────────────────── `c24.full` / `c24.fullfilter`: the whole response, model vs partial_execute ─────────────────────────
+
+fn ustr(s: &str) -> String { format!("u{}", s.chars().map(|c| (c as u32).to_string()).collect::<Vec<_>>().join(".")) }
+fn enc_opt_desc(d: &Option<Desc>, out: &mut Vec<String>) { match d { None => out.push("-".into()), Some(d) => out.push(ustr(&d.value)) } }
+fn enc_dep(d: &Dep, out: &mut Vec<String>) { match d { None => out.push("-".into()), Some(None) => out.push("!".into()), Some(Some(r)) => { out.push("r".into()); out.push(ustr(r)); } } }
+fn enc_lit(l: &Lit, out: &mut Vec<String>) {
+    match l {
+        Lit::Null => out.push("z".into()), Lit::Bool(b) => out.push(if *b { "t" } else { "f" }.into()), Lit::Int(i) => out.push(format!("i{i}")),
+        Lit::Float(t) => out.push(format!("d{t}")), Lit::Str(s) => out.push(format!("s{}", ustr(s))), Lit::Enum(e) => out.push(format!("e{e}")),
+        Lit::List(xs) => { out.push(format!("a{}", xs.len())); for x in xs { enc_lit(x, out) } }
+        Lit::Obj(kvs) => { out.push(format!("o{}", kvs.len())); for (k, v) in kvs { out.push(format!("k{k}")); enc_lit(v, out) } }
+    }
+}
+fn enc_input(v: &InputVal, out: &mut Vec<String>) {
+    out.push(v.name.clone()); enc_opt_desc(&v.desc, out); v.ty.enc(out);
+    match &v.default { None => out.push("-".into()), Some(d) => { out.push("=".into()); enc_lit(d, out) } }
+    enc_dep(&v.dep, out);
+}
+fn enc_field(f: &Field, out: &mut Vec<String>) {
+    out.push(f.name.clone()); enc_opt_desc(&f.desc, out); out.push(f.args.len().to_string()); for a in &f.args { enc_input(a, out) } f.ty.enc(out); enc_dep(&f.dep, out);
+}
+/// the generator's (user) schema; what every schema contains besides is the model's `apolloSchema`
+pub fn enc_schema(s: &SchemaG) -> String {
+    let mut o: Vec<String> = vec![];
+    enc_opt_desc(&s.desc, &mut o);
+    o.push(s.query.clone());
+    o.push(s.mutation.clone().unwrap_or("-".into()));
+    o.push(s.subscription.clone().unwrap_or("-".into()));
+    let user: Vec<&TypeDef> = s.types.iter().filter(|t| !t.builtin).collect();
+    o.push(user.len().to_string());
+    for t in user {
+        o.push(t.name.clone()); enc_opt_desc(&t.desc, &mut o);
+        match &t.kind {
+            Kind::Scalar { specified_by } => { o.push("S".into()); match specified_by { None => o.push("-".into()), Some(u) => o.push(ustr(u)) } }
+            Kind::Object { implements, fields } | Kind::Interface { implements, fields } => {
+                o.push(if matches!(t.kind, Kind::Object { .. }) { "O" } else { "I" }.into());
+                o.push(implements.len().to_string()); o.extend(implements.iter().cloned());
+                o.push(fields.len().to_string()); for f in fields { enc_field(f, &mut o) }
+            }
+            Kind::Union { members } => { o.push("U".into()); o.push(members.len().to_string()); o.extend(members.iter().cloned()); }
+            Kind::Enum { values } => { o.push("E".into()); o.push(values.len().to_string()); for v in values { o.push(v.name.clone()); enc_opt_desc(&v.desc, &mut o); enc_dep(&v.dep, &mut o) } }
+            Kind::Input { fields } => { o.push("N".into()); o.push(fields.len().to_string()); for f in fields { enc_input(f, &mut o) } }
+        }
+    }
+    let dirs: Vec<&DirectiveDef> = s.directives.iter().filter(|d| !d.builtin).collect();
+    o.push(dirs.len().to_string());
+    for d in dirs {
+        o.push(d.name.clone()); enc_opt_desc(&d.desc, &mut o); o.push(d.args.len().to_string()); for a in &d.args { enc_input(a, &mut o) }
+        o.push(if d.repeatable { "t" } else { "f" }.into()); o.push(d.locations.len().to_string()); o.extend(d.locations.iter().cloned());
+    }
+    format!("={}", o.join(" "))
+}
+
+fn fnv_bytes(h: &mut u64, bs: &[u8]) { for b in bs { *h ^= *b as u64; *h = h.wrapping_mul(0x100000001b3); } }
+fn hash_jv(h: &mut u64, v: &JV) {
+    match v {
+        JV::Null => fnv_bytes(h, &[0]),
+        JV::Bool(b) => fnv_bytes(h, &[1, *b as u8]),
+        JV::Int(i) => { fnv_bytes(h, &[2]); fnv_bytes(h, i.to_string().as_bytes()); fnv_bytes(h, &[0xff]) }
+        JV::Float(t) => { fnv_bytes(h, &[6]); fnv_bytes(h, t.as_bytes()); fnv_bytes(h, &[0xff]) }
+        JV::Str(s) => { fnv_bytes(h, &[3]); fnv_bytes(h, s.as_bytes()); fnv_bytes(h, &[0xff]) }
+        JV::Arr(xs) => { fnv_bytes(h, &[4]); for x in xs { hash_jv(h, x) } fnv_bytes(h, &[0xfe]) }
+        JV::Obj(kvs) => { fnv_bytes(h, &[5]); for (k, x) in kvs { fnv_bytes(h, k.as_bytes()); fnv_bytes(h, &[0xff]); hash_jv(h, x) } fnv_bytes(h, &[0xfe]) }
+    }
+}
+fn digest(v: &JV) -> String { let mut h = 0xcbf29ce484222325u64; hash_jv(&mut h, v); h.to_string() }
+fn plain_name(v: &JV) -> String { match v { JV::Obj(kvs) => match kvs.iter().find(|(k, _)| k == "name") { Some((_, JV::Str(n))) => n.clone(), _ => "?".into() }, _ => "?".into() } }
+
+/// descriptions of the built-in definitions are not modelled (built_in_types.graphql's own texts)
+fn strip_builtin_descriptions(schema_data: &JV) -> JV {
+    let JV::Obj(kvs) = schema_data else { return schema_data.clone() };
+    JV::Obj(kvs.iter().map(|(k, v)| (k.clone(), match (k.as_str(), v) {
+        ("types", JV::Arr(ts)) => JV::Arr(ts.iter().map(|t| { let n = plain_name(t); if n.starts_with("__") || BUILTIN_SCALARS.contains(&n.as_str()) { strip_descriptions(t) } else { t.clone() } }).collect()),
+        ("directives", JV::Arr(ds)) => JV::Arr(ds.iter().map(|d| if ["skip", "include", "deprecated", "specifiedBy"].contains(&plain_name(d).as_str()) { strip_descriptions(d) } else { d.clone() }).collect()),
+        _ => v.clone(),
+    })).collect())
+}
+
+/// one digest per top-level field of `data.__schema`; `types` and `directives` element by element, in response order
+fn summary(data: &Option<JV>, nerr: usize) -> String {
+    let mut out = vec![format!("errors={nerr}")];
+    match data {
+        None => out.push("data=null".into()),
+        Some(d) => match field(d, "__schema") {
+            Some(sd @ JV::Obj(_)) => {
+                let JV::Obj(kvs) = strip_builtin_descriptions(sd) else { unreachable!() };
+                for (k, v) in &kvs {
+                    match v {
+                        JV::Arr(xs) if k == "types" || k == "directives" => for x in xs { out.push(format!("{k}:{}={}", plain_name(x), digest(x))) },
+                        v => out.push(format!("{k}={}", digest(v))),
+                    }
+                }
+            }
+            _ => out.push("schema=?".into()),
+        },
+    }
+    out.join(" ")
+}
+
 // ───────────────────────── running the real code ─────────────────────────
 
 pub struct Compiled { pub schema: apollo_compiler::validation::Valid<Schema> }
@@ -492,6 +594,7 @@ pub fn one(ctx: &mut Ctx, user: &SchemaG, label: &str) {
         Ok(Err(e)) => ctx.fail("introspection-request-error", &input, &e),
         Ok(Ok((data, nerr))) => {
             if nerr > 0 { ctx.fail("introspection-errors", &input, &format!("{nerr} errors")); }
+            ctx.case("c24.full", &[enc_schema(user)], &summary(&data, nerr));
             let got = data.as_ref().and_then(|d| field(d, "__schema")).cloned().unwrap_or(JV::Null);
             let want = normalise(&expected_full(&full));
             let gotn = normalise(&got);
@@ -541,6 +644,7 @@ pub fn one(ctx: &mut Ctx, user: &SchemaG, label: &str) {
             Ok(Err(e)) => ctx.fail("introspection-request-error", &input, &e),
             Ok(Ok((data, nerr))) => {
                 if nerr > 0 { ctx.fail("introspection-errors", &input, &format!("{nerr} errors (filter query)")); }
+                ctx.case("c24.fullfilter", &[enc_schema(user), format!("={}", match &nvar { Some(JV::Bool(true)) => "t", Some(JV::Bool(false)) => "f", Some(JV::Null) => "z", _ => "-" })], &summary(&data, nerr));
                 let got = normalise(&data.as_ref().and_then(|d| field(d, "__schema")).cloned().unwrap_or(JV::Null));
                 let want = normalise(&expected_filtered(&full));
                 if let Some((path, g, w)) = first_diff(&got, &want, &mut vec![]) {
